@@ -683,6 +683,19 @@ func (ex *Exec) contractCall(key string, spec *FuncSpec, callee *ssa.Function, t
 			}
 		}
 	}
+	// axioms about the uninterpreted functions the callee's contract mentions
+	for _, ax := range ex.vc.w.Contracts.axiomsFor(spec) {
+		seen := false
+		for _, n := range ex.vc.axiomsUsed {
+			if n == ax.Name {
+				seen = true
+			}
+		}
+		if !seen {
+			ex.vc.axiomsUsed = append(ex.vc.axiomsUsed, ax.Name)
+			ex.vc.assume(ev.evalBool(ax.Body))
+		}
+	}
 	// requires
 	for k, r := range spec.Requires {
 		t := ev.evalBool(r.Expr)
